@@ -189,3 +189,184 @@ def run(ctx, args):
         core.log(('PASS  ' if good else 'FAIL  ') + name + ('' if good else '  ' + json.dumps(detail)))
     shutil.rmtree(base, ignore_errors=True)
     return 0 if ok else 2
+
+
+def robust(ctx, args):
+    """Monitor totality: the bytes the implementation produced are damaged (bit flips, field extremes, truncation,
+    deletion, duplication, zeroing; harness option cfg.corrupt) before the independent reader projects them, and the
+    trace specifications must still evaluate every event: signatures are expected and ignored, a TLC evaluation
+    error or an unconsumed trace is a defect of the machinery (a check would exit 2 instead of reporting a
+    violation).  Not a registered check."""
+    core.build_harness(ctx)
+    base = os.path.join(ctx.work, 'robust')
+    shutil.rmtree(base, ignore_errors=True)
+    os.makedirs(base)
+    rounds = int(args[0]) if args else 3
+    bad = 0
+    total = 0
+    F = {'bytes': True, 'timing': True, 'tree': True, 'raw': True}
+    for rnd in range(rounds):
+        sets = [('layout', 'TraceMuxide', gen.generate('layout', 0, ctx.seed, 'quick')),
+                ('mux', 'TraceMuxide', [gen.generate('mux', 1, ctx.seed * 100 + k, 'quick')[0] for k in range(300)]),
+                ('meta', 'TraceMuxide', gen.generate('meta', 0, ctx.seed, 'quick')[:600]),
+                ('widths', 'TraceMuxide', [o for o in gen.generate('widths', 0, ctx.seed, 'quick') if 'kind' not in o][:40]),
+                ('frag', 'TraceFrag', [gen.generate('frag', 1, ctx.seed * 100 + k, 'quick')[0] for k in range(300)]),
+                ('fraginit', 'TraceFrag', gen.generate('fraginit', 0, ctx.seed, 'quick'))]
+        for name, trace, lines in sets:
+            lines = copy.deepcopy(lines)
+            for k, o in enumerate(lines):
+                o['cfg']['corrupt'] = 1 + rnd * 100003 + k
+                o['cfg']['facets'] = dict(F)
+            d = os.path.join(base, '%s_%d' % (name, rnd))
+            os.makedirs(d)
+            r = corpora.run_lines(ctx, name, lines, d, trace=trace, harness_cmd='replay', inst_div=8)
+            total += len(lines)
+            nsig = len(r.get('sigs', []))
+            errs = r.get('errors', [])
+            print('%-9s round %d: %5d instances, %6d events, %6d signatures, %d tool errors' % (name, rnd, len(lines), r.get('events', 0), nsig, len(errs)))
+            for e in errs[:2]:
+                print('   ', e[:3000])
+            bad += len(errs)
+            shutil.rmtree(d, ignore_errors=True)
+    # ---- second phase: the reported OUTCOMES deviate (a call that must fail is reported as accepted and vice
+    # versa, another error variant, statistics off): the model has to follow what the implementation claims
+    # (e.g. store a sample whose framing is invalid) without failing to evaluate ----
+    import random, glob
+    VARS = ['EmptyVideoFrame', 'InvalidAdts', 'NonIncreasingVideoPts', 'AudioBeforeFirstVideo', 'Io', 'AlreadyFinished', 'NegativeVideoPts',
+            'FirstVideoFrameMustBeKeyframe', 'InvalidOpusPacket', 'AudioNotConfigured', 'Bogus']
+    for rnd in range(rounds):
+        rng = random.Random(1000 + rnd)
+        for name, trace, cmdname in (('contract', 'TraceMuxide', 'replay'), ('adts', 'TraceMuxide', 'replay'), ('frag', 'TraceFrag', 'replay')):
+            d = os.path.join(base, 'out_%s_%d' % (name, rnd))
+            os.makedirs(d)
+            if name == 'contract':
+                lines = [o for k in range(400) for o in [gen.generate('mux', 1, ctx.seed * 100 + k + 7000 * rnd, 'quick')[0]]]
+                # add invalid frames of every class after the valid prefix
+                for o in lines:
+                    calls = o['calls']
+                    fin = calls.pop() if calls and calls[-1]['op'] == 'fin' else None
+                    for _ in range(3):
+                        kind = rng.choice(['wv', 'wa'])
+                        data = rng.choice([[], [0xff], [0xff, 0xf1, 0x4c, 0x80, 0, 0x3f, 0xfc, 1], [0, 0, 0, 1, 0x41, 1], [3], [0xde, 0xad, 0xbe, 0xef], [0xff, 0xf1, 0x4c, 0x80, 0xff, 0xff, 0xfc]])
+                        c = {'op': kind, 'pts': gen.fin(rng.choice([0, 1, 9000, 500000])), 'data': data}
+                        if kind == 'wv':
+                            c['key'] = rng.random() < 0.5
+                        calls.append(c)
+                    if fin:
+                        calls.append(fin)
+            elif name == 'adts':
+                lines = gen.generate('adts', 0, ctx.seed, 'quick')
+            else:
+                lines = [gen.generate('frag', 1, ctx.seed * 100 + k + 7000 * rnd, 'quick')[0] for k in range(300)]
+            inp = os.path.join(d, 'in.ndjson')
+            with open(inp, 'w') as f:
+                for o in lines:
+                    f.write(json.dumps(o) + '\n')
+            core.run_harness(ctx, ['replay', '--in', inp, '--out', os.path.join(d, 'trace'), '--shards', '16'])
+            files = sorted(glob.glob(os.path.join(d, 'trace', 'shard_*.ndjson')))
+            nmut = 0
+            for fpath in files:
+                evs = [json.loads(l) for l in open(fpath)]
+                for e in evs:
+                    if 'ok' in e and e.get('ev') != 'new' and rng.random() < 0.2:
+                        nmut += 1
+                        r = rng.random()
+                        if r < 0.5:
+                            e['ok'] = not e['ok']
+                            e['var'] = '' if e['ok'] else rng.choice(VARS)
+                        elif r < 0.75 and not e['ok']:
+                            e['var'] = rng.choice(VARS)
+                        elif 'stats' in e:
+                            k = rng.choice(list(e['stats'].keys()))
+                            e['stats'][k] = rng.choice([0, 1, 7, 10 ** 9])
+                        else:
+                            for k in ('sa', 'sb'):
+                                if k in e:
+                                    e[k] = rng.choice([0, 1, e[k] + 1, 10 ** 9])
+                with open(fpath, 'w') as f:
+                    for e in evs:
+                        f.write(json.dumps(e) + '\n')
+            sigs, consumed, errors = core.run_trace_shards(ctx, trace, files, os.path.join(d, 'tv'))
+            total += len(lines)
+            print('%-9s outcomes round %d: %5d instances, %6d events, %5d mutated, %6d signatures, %d tool errors' % (name, rnd, len(lines), consumed, nmut, len(sigs), len(errors)))
+            for e in errors[:2]:
+                print('   ', e[:3000])
+            bad += len(errors)
+            shutil.rmtree(d, ignore_errors=True)
+    # ---- third phase: generic damage of recorded FACTS (numbers, byte arrays, flags, strings) in the traces of the
+    # function tables, the CLI, the validation tables, the sink-fault corpus and the date table: whatever the
+    # implementation is reported to have returned, the judge must evaluate ----
+    def damage(v, rng, depth=0):
+        if isinstance(v, bool):
+            return (not v) if rng.random() < 0.5 else v
+        if isinstance(v, int):
+            return rng.choice([0, 1, v + 1, max(0, v - 1), 255, 256, 65535, 10 ** 9, -1]) if rng.random() < 0.6 else v
+        if isinstance(v, str):
+            return rng.choice(['', 'x', v + 'x', 'panic', 'ok']) if rng.random() < 0.3 else v
+        if isinstance(v, list):
+            r = rng.random()
+            if r < 0.25 and v:
+                return v[:rng.randrange(0, len(v))]
+            if r < 0.4 and v:
+                return v + [copy.deepcopy(v[-1])]
+            if r < 0.5:
+                return []
+            return [damage(x, rng, depth + 1) if rng.random() < 0.3 else x for x in v]
+        if isinstance(v, dict):
+            return {k: (damage(x, rng, depth + 1) if rng.random() < 0.4 else x) for k, x in v.items()}
+        return v
+    KEEP = {'ev', 'i', 'k', 'fn', 'f', 'in', 'alpha', 'maxlen', 'base', 'shards', 'from', 'to', 'stride', 'days', 'sod', 'cfg', 'opts', 'cmd', 'kind', 'calls', 'op', 'data', 'pts', 'dts', 'key', 'how', 'ms', 'n'}
+    def run_generic(name, trace, make):
+        nonlocal total, bad
+        for rnd in range(rounds):
+            rng = random.Random(5000 + rnd)
+            d = os.path.join(base, 'gen_%s_%d' % (name, rnd))
+            os.makedirs(d)
+            files = make(d)
+            nmut = 0
+            for fpath in files:
+                evs = [json.loads(l) for l in open(fpath)]
+                for e in evs:
+                    if rng.random() < 0.15:
+                        for k in list(e.keys()):
+                            if k not in KEEP and rng.random() < 0.5:
+                                e[k] = damage(e[k], rng)
+                                nmut += 1
+                with open(fpath, 'w') as f:
+                    for e in evs:
+                        f.write(json.dumps(e) + '\n')
+            sigs, consumed, errors = core.run_trace_shards(ctx, trace, files, os.path.join(d, 'tv'))
+            # an enumeration judge may refuse a damaged table as INCOMPLETE (a tool error by design); only evaluation errors count
+            errors = [e for e in errors if 'INCOMPLETE' not in e]
+            print('%-9s facts round %d: %6d events, %5d fields damaged, %6d signatures, %d evaluation errors' % (name, rnd, consumed, nmut, len(sigs), len(errors)))
+            for e in errors[:2]:
+                print('   ', e[:2500])
+            bad += len(errors)
+            total += 1
+            shutil.rmtree(d, ignore_errors=True)
+    def mk_fn(d):
+        core.run_harness(ctx, ['fnt', '--alpha', '0,1,2,3,255', '--maxlen', '5', '--shards', '8', '--out', os.path.join(d, 'fn')])
+        return sorted(glob.glob(os.path.join(d, 'fn', 'shard_*.ndjson')))
+    def mk_lines(genname, cmd='replay', n=None):
+        def mk(d):
+            lines = gen.generate(genname, 0, ctx.seed, 'quick')
+            if n:
+                lines = lines[:n]
+            inp = os.path.join(d, 'in.ndjson')
+            with open(inp, 'w') as f:
+                for o in lines:
+                    f.write(json.dumps(o) + '\n')
+            core.run_harness(ctx, [cmd, '--in', inp, '--out', os.path.join(d, 'trace'), '--shards', '8'])
+            return sorted(glob.glob(os.path.join(d, 'trace', 'shard_*.ndjson')))
+        return mk
+    def mk_dates(d):
+        core.run_harness(ctx, ['dates', '--from', '0', '--to', '2932896', '--stride', '997', '--shards', '4', '--out', os.path.join(d, 'dt')])
+        return sorted(glob.glob(os.path.join(d, 'dt', 'shard_*.ndjson')))
+    run_generic('fn', 'TraceFn', mk_fn)
+    run_generic('cli', 'TraceCli', mk_lines('cli'))
+    run_generic('dates', 'TraceDates', mk_dates)
+    run_generic('sink', 'TraceMuxide', mk_lines('sink_calls'))
+    run_generic('layout', 'TraceMuxide', mk_lines('layout', n=300))
+    run_generic('fraginit', 'TraceFrag', mk_lines('fraginit'))
+    print('robust: %d damaged instances, %d tool errors' % (total, bad))
+    return 0 if bad == 0 else 1
